@@ -226,7 +226,7 @@ def generate(seed, tier, prop):
             "passive_const": passive,
             "const": const, "profiles": profiles, "n_steps": T, "run": run, "faults": faults,
             "permute": rng.random() < 0.5, "perm_seed": rng.randrange(1 << 30),
-            "restart": (rng.choice(["json_str", "json_enc"]) if (prop == "C15" or rng.random() < 0.15) and kind in ("control", "control2") else None),
+            "restart": (rng.choice(["json_str", "json_enc", "json_file"]) if (prop == "C15" or rng.random() < 0.15) and kind in ("control", "control2") else None),
             "knobs": {"fault_free": fault_free, "bad_steps": bad}, "ops": []}
 
 
@@ -548,6 +548,15 @@ def _restart_multinet(res, mn, nets, path):
     try:
         if path == "json_enc":
             loaded = pp.from_json_string(pp.to_json(mn, encryption_key=e1.KEY), encryption_key=e1.KEY)
+        elif path == "json_file":
+            # through the simulated disk and the convert=True default of from_json
+            fs = seams.SimFS()
+            fs.install()
+            try:
+                pp.to_json(mn, "/simdisk/multinet.json")
+                loaded = pp.from_json("/simdisk/multinet.json")
+            finally:
+                fs.uninstall()
         else:
             loaded = pp.from_json_string(pp.to_json(mn))
     except Exception as e:
